@@ -6,6 +6,10 @@
    all orders.
 
    Stages (file : function) and their model
+     0    antismash/common/hmm_rule_parser/cluster_prediction.py : filter_results, `best = list(group)[0]` on a set of
+          identity-hashed HSPs -> filter_gene_o (C13.Model.fr_cds under a rank assignment);
+          CDSResults.annotate, loop over the Set[str] of definition domains -> annotate_core
+          antismash/modules/terpene/terpene_analysis.py : filter_incomplete (start-only sort key) -> terpene_filter_o
      1/2  antismash/common/hmmscan_refinement.py : gather_by_query + refine_hmmscan_results
           (neighbour / default mode)           -> C13.Model.refine_table at the order `o`
           (pre-repair variant with the start-only sort key: refine_gene_startkey)
@@ -17,16 +21,20 @@
           ascending protocluster id; another order = another numbering of the same protoclusters),
           `_ordered` = C05.Model.ordered_list (pre-sort key (product, core_start, core_end) since the repair of
           same_product_equal_coordinates_member_order; the singles loop iterates _ordered(set(unassigned)) since the
-          repair of single_candidates_set_order)
+          repair of single_candidates_set_order);
+          module FO: the same formation with an explicit enumerator at each of its nine set-iteration sites
+          (create_candidates_o; = C05.Model.create_candidates at the ascending-id enumerator)
      5    antismash/common/secmet/features/region/structures.py : Region.get_unique_protoclusters
           (both branches)                      -> unique_protoclusters
      6    cluster_prediction.py : CDSResults.to_json `sorted(set of str)`;
           antismash/detection/hmm_detection/__init__.py : run_on_record `sorted(get_rule_names())`
-                                               -> sorted_set (pre-repair: list_of_set)
+                                               -> sorted_set (pre-repair: list_of_set);
+          antismash/outputs/html/js.py : convert_regions `list(region.product_categories)` -> list_of_set (current code)
      7    antismash/common/secmet/features/feature.py : Feature.to_biopython `sorted(notes)`,
           `sorted(quals.items())`              -> sorted_list
    No proofs in this file. *)
 From ASV Require Import Base.
+From ASV Require Loc.
 From ASV.C03 Require Model.
 From ASV.C05 Require Model.
 From ASV.C13 Require Model.
@@ -69,6 +77,23 @@ Definition refine_sorted (neighbour : bool) (L : Z -> Z) (reg : Z -> bool) (refi
 Definition refine_gene_startkey (neighbour : bool) (L : Z -> Z) (reg : Z -> bool) (o : list C13.Model.hit)
   : res (list C13.Model.hit) :=
   refine_sorted neighbour L reg (sort_by C13.Model.start_lt o).
+
+(* ------------------------------------------------------------------ terpene: filter_incomplete *)
+(* antismash/modules/terpene/terpene_analysis.py : filter_incomplete
+       results_by_id = gather_by_query(hmmscan_results)
+       for cds, results in results_by_id.items():
+           refined = sorted(list(results), key=lambda result: result.query_start)      (start ONLY: the key that
+           refined = remove_incomplete(refined, hmm_lengths)                            repair 6f19f05d replaced in
+           if refined: refined_results[cds] = refined                                   refine_hmmscan_results)
+   `o` = the hits gene by gene in the enumeration order of the gather_by_query sets; the result is observed key-sorted *)
+Definition terpene_gene (L : Z -> Z) (reg : Z -> bool) (o : list C13.Model.hit) : list C13.Model.hit :=
+  C13.Model.remove_incomplete L reg (sort_by C13.Model.start_lt (C13.Model.dedupe C13.Model.hit_eqb o)).
+Definition terpene_filter_o (t : C13.Model.ptable) (o : list (Z * C13.Model.hit)) : res (list (Z * list C13.Model.hit)) :=
+  if forallb (fun gh : Z * C13.Model.hit => C13.Model.ppresent t (C13.Model.prof (snd gh))) o
+  then Ok (filter (fun gr : Z * list C13.Model.hit => match snd gr with [] => false | _ => true end)
+                  (map (fun g => (g, terpene_gene (C13.Model.plen t) (C13.Model.preg t) (C13.Model.hits_of g o)))
+                       (C13.Model.genes_of o)))
+  else Err E_Key.
 
 (* ------------------------------------------------------------------ stage 3: anchoring genes *)
 (* a CDS feature that does not cross the origin: identity, location.start, location.end
@@ -137,6 +162,171 @@ Fixpoint no_equal_coords (l : list uproto) : bool :=
   | a :: t => forallb (fun b => negb ((ust a =? ust b) && (ulen a =? ulen b))) t && no_equal_coords t
   end.
 
+(* ------------------------------------------------------------------ stage 0: filter_results (cluster_prediction.py) *)
+(* `best = list(group)[0]; for hit in group: if hit.bitscore > best.bitscore: best = hit` on a SET of identity-hashed HSP
+   objects: C13.Model.filter_results models the set order by the field f_rank of every hit (ascending rank = iteration
+   order).  Another memory layout = another rank assignment `rho` (by object identity), everything else unchanged. *)
+Definition rerank (rho : Z -> Z) (h : C13.Model.fhit) : C13.Model.fhit :=
+  C13.Model.mkFH (C13.Model.f_id h) (C13.Model.f_prof h) (C13.Model.f_hs h) (C13.Model.f_he h) (C13.Model.f_sc h)
+                 (rho (C13.Model.f_id h)).
+(* one gene under one equivalence group at the layout rho: (ids left in `results`, ids left for the gene) *)
+Definition filter_gene_o (rho : Z -> Z) (eqg : list Z) (results mine : list C13.Model.fhit) : res (list Z * list Z) :=
+  match C13.Model.fr_cds eqg (Ok (map (rerank rho) results, [])) (map (rerank rho) mine) with
+  | (Ok (r, _), m) => Ok (map C13.Model.f_id r, map C13.Model.f_id m)
+  | (Err k, _) => Err k
+  end.
+
+(* ------------------------------------------------------------------ CDSResults.annotate (cluster_prediction.py) *)
+(* for cluster_type, matching_domains in self.definition_domains.items():      (dict: insertion order, fixed)
+       for domain in matching_domains:                                          (Set[str]: hash order `o`)
+           self.cds.gene_functions.add(GeneFunction.CORE, tool, domain, cluster_type)
+   result: the CORE gene functions (domain, cluster type) in the order they are added = the order of the
+   gene_functions qualifier of the CDS in the GenBank output *)
+Definition annotate_core (defs : list (list Z * list (list Z))) : list (list Z * list Z) :=
+  flat_map (fun d : list Z * list (list Z) => map (fun dom => (dom, fst d)) (list_of_set (snd d))) defs.
+(* the proposed repair: `for domain in sorted(matching_domains)` *)
+Definition annotate_core_sorted (defs : list (list Z * list (list Z))) : list (list Z * list Z) :=
+  flat_map (fun d : list Z * list (list Z) => map (fun dom => (dom, fst d)) (sorted_set (snd d))) defs.
+
+(* ------------------------------------------------------------------ stage 4 with explicit enumerators *)
+(* formation.py again, this time with EVERY iteration over a Python set made explicit: `en k s` is the order in
+   which the interpreter yields the elements of the set `s` (given as a list) at iteration site k.  The rest is the
+   transcription of C05.Model, definition by definition (create_candidates_o (fun _ => iter) = C05.Model.create_candidates,
+   lemma formation_o_iter_proof).  Sites:
+     1  build_candidates: list(existing_clusters)            2  build_candidates: list(extras) / for extra in extras
+     3  _ordered(set(unassigned)) of the singles loop         4  _merge_sets: _ordered(group) of each merged set
+     5  _find_hybrids: sorted(unassigned, key=core start)     6  _find_hybrids: _ordered(unassigned)
+     7  _find_interleaved: sorted(set(clusters).difference(found))
+     8  _find_neighbouring: for single in unassigned (origin-crossing edge candidates)
+     9  _find_neighbouring: sorted(unassigned)
+   (set sizes, membership tests, min() over a set and set equality do not depend on the order and stay as in C05) *)
+Module FO.
+Import ASV.Common.Loc C05.Model.
+Definition enum := Z -> list proto -> list proto.
+Definition ordered_set_o (en : enum) (k : Z) (g : list proto) : list proto := ordered_list (en k g).
+Definition merge_sets_o (en : enum) (groups : list (list proto)) : list (list proto) :=
+  map (ordered_set_o en 4) (merge_core groups).
+
+Fixpoint build_go_o (en : enum) (w : option Z) (kind : Z) (groups : list (list proto))
+                    (existing : table) (singles : list proto) : res (table * list proto) :=
+  match groups with
+  | [] => Ok (existing, singles)
+  | group :: rest =>
+    if negb ((kind =? K_SINGLE) || (1 <? zlen group)) then Err E_Assert else
+    do candidate <- mk_cand w kind (ordered_list group);
+    let key := ckey candidate in
+    match tget key existing with
+    | None => build_go_o en w kind rest (tset key candidate existing) singles
+    | Some ex =>
+      let existing_clusters := en 1 (cmem ex) in
+      let extras := en 2 (diff group existing_clusters) in
+      if is_empty extras then build_go_o en w kind rest existing singles else
+      do replacement <- mk_cand w (ckind ex) (ordered_list (existing_clusters ++ extras));
+      build_go_o en w kind rest (tset key replacement existing) (fold_left (fun s x => set_add x s) extras singles)
+    end
+  end.
+Definition build_candidates_o (en : enum) (w : option Z) (kind : Z) (groups : list (list proto))
+                              (existing : table) (singles : list proto)
+  : res (list cand * table * list proto) :=
+  do es <- build_go_o en w kind groups existing singles;
+  let '(e, s) := es in
+  Ok (sort_by lt_cc (tvalues e), e, s).
+
+Definition find_hybrids_o (en : enum) (clusters : list proto) (w : option Z)
+  : res (list (list proto) * list proto) :=
+  let sorted_c := sort_by core_key_lt clusters in
+  let pairs := pairs_rel defs_intersect sorted_c in
+  let extra := match first_last sorted_c with
+               | Some (f, l) => if negb (pid f =? pid l) && defs_intersect f l then [(f, l)] else []
+               | None => []
+               end in
+  let groups := map (fun xy => [fst xy; snd xy]) (pairs ++ extra) in
+  let unassigned := diff clusters (concat groups) in
+  let merged := merge_sets_o en groups in
+  let by_core := sort_by core_start_lt (en 5 unassigned) in
+  do extended <- mapM (hybrid_extend w by_core) merged;
+  let unassigned' := diff unassigned (concat extended) in
+  Ok (map ordered_list extended, ordered_set_o en 6 unassigned').
+
+Definition find_interleaved_o (en : enum) (clusters : list proto) (cands : list cand) (w : option Z)
+  : res (list (list proto) * list proto) :=
+  do cc <- with_cores w cands;
+  let groups0 := find_interleaved_candidates cc in
+  let by_core := sort_by core_start_lt clusters in
+  let pp := core_pairs by_core in
+  let groups1 := groups0 ++ map (fun xy => [fst xy; snd xy]) pp in
+  let found1 := concat (map (fun xy => [fst xy; snd xy]) pp) in
+  let hits := flat_map (fun cl =>
+                  map (fun ck => (ck, cl))
+                      (cand_scan (fun ck => overlap (snd ck) (pcore cl)) (lend (ploc cl))
+                                 (skipn (window_index cc cl) cc))) by_core in
+  let groups2 := groups1 ++ map (fun h => cmem (fst (fst h)) ++ [snd h]) hits in
+  let found2 := found1 ++ map snd hits in
+  do fg <- find_cross_origin_interleaved w cc by_core groups2;
+  let '(found3, groups3) := fg in
+  Ok (merge_sets_o en groups3, sort_by lt_pp (en 7 (diff clusters (found2 ++ found3)))).
+
+Definition find_neighbouring_o (en : enum) (singles : list proto) (cands : list cand) : list (list proto) :=
+  let groups0 := find_neighbouring_candidates cands in
+  let hits := flat_map (fun s =>
+                 map (fun c => (c, s))
+                     (cand_scan_plain (fun c => overlap (ploc s) (cloc c)) (lend (ploc s))
+                                      (skipn (window_index_plain cands s) cands ++ firstn 1 cands))) singles in
+  let groups1 := groups0 ++ map (fun h => union (cmem (fst h)) [snd h]) hits in
+  let unassigned := diff singles (map snd hits) in
+  let edges :=
+    if is_empty unassigned || is_empty cands then [] else
+    (match cands with c0 :: _ => if bridges (cloc c0) then [c0] else [] | [] => [] end)
+    ++ (match cands with
+        | _ :: _ :: _ => match last_opt cands with
+                         | Some cl => if bridges (cloc cl) then [cl] else []
+                         | None => []
+                         end
+        | _ => []
+        end) in
+  let edge_groups := flat_map (fun c =>
+                        match filter (fun s => overlap (ploc s) (cloc c)) (en 8 unassigned) with
+                        | s :: _ => [cmem c ++ [s]]
+                        | [] => []
+                        end) edges in
+  let groups2 := groups1 ++ edge_groups in
+  merge_sets_o en (groups2 ++ find_neighbouring_protoclusters (sort_by lt_pp (en 9 unassigned))).
+
+Definition formation_body_o (en : enum) (protos : list proto) (w : option Z) : res (list cand) :=
+  let unassigned0 := sort_by lt_pp protos in
+  do hu <- find_hybrids_o en unassigned0 w;
+  let '(hybrid_groups, unassigned1) := hu in
+  do b1 <- build_candidates_o en w K_HYBRID hybrid_groups [] [];
+  let '(cands1, ex1, singles1) := b1 in
+  do iu <- find_interleaved_o en unassigned1 cands1 w;
+  let '(inter_groups, unassigned2) := iu in
+  do b2 <- build_candidates_o en w K_INTERLEAVED inter_groups ex1 singles1;
+  let '(cands2, ex2, singles2) := b2 in
+  let neigh_groups := find_neighbouring_o en unassigned2 cands2 in
+  do b3 <- build_candidates_o en w K_NEIGHBOURING neigh_groups ex2 singles2;
+  let '(cands3, ex3, singles3) := b3 in
+  do ss <- singles_go w ex3 (ordered_set_o en 3 (unassigned2 ++ singles3));
+  Ok (cands3 ++ ss).
+
+Definition create_candidates_o (en : enum) (protos : list proto) (w : option Z) : res (list cand) :=
+  match protos with
+  | [] => Ok []
+  | _ =>
+    do cands <- formation_body_o en protos w;
+    if negb (assigned_count cands =? zlen protos) then Err E_Assert else
+    Ok (sort_by lt_cc cands)
+  end.
+
+(* two concrete enumerators: ascending id (the one of C05.Model, = what the harness observes with id-hashed
+   objects) and descending id *)
+Definition en_asc : enum := fun _ s => iter s.
+Definition en_desc : enum := fun _ s => rev (iter s).
+(* a family of scrambled enumerations: at site k the elements are ordered by ((id + 1) * a + k * b) mod m (stable on
+   ascending id); used by the harness to evaluate the model at many enumeration orders *)
+Definition en_hash (a b m : Z) : enum := fun k s =>
+  sort_by (fun x y => ((pid x + 1) * a + k * b) mod m <? ((pid y + 1) * a + k * b) mod m) (iter s).
+End FO.
+
 (* ------------------------------------------------------------------ encoding *)
 Definition dStr : dec (list Z) := dList dZ.
 Definition eStrs (l : list (list Z)) : list Z := eList (eList (fun c => [c])) l.
@@ -160,6 +350,32 @@ Definition run_C17 (fn : Z) (l : list Z) : list Z :=
          | _ => bad_input
          end
   | 4 => C05.Model.run_C05 2 l
+  | 8 => (* CDSResults.annotate: [(cluster type, observed enumeration of its set of domains)] -> CORE functions *)
+    match dList (dPair dStr (dList dStr)) l with
+    | Some (defs, []) => eList (fun p : list Z * list Z => eList (fun c => [c]) (fst p) ++ eList (fun c => [c]) (snd p))
+                               (annotate_core defs)
+    | _ => bad_input
+    end
+  | 10 => (* terpene filter_incomplete: payload of fn 1 / 2 (profile table, hits in observed order) *)
+    match dPair (dList C13.Model.dPEntry) (dList C13.Model.dGHit) l with
+    | Some ((t, hits), []) =>
+      if C13.Model.table_ok t hits then eRes C13.Model.eGenes (terpene_filter_o t hits) else bad_input
+    | _ => bad_input
+    end
+  | 14 => (* payload of fn 4; create_candidates_from_protoclusters with every set enumerated in DESCENDING id *)
+    match dPair (dOpt dZ) (dList C05.Model.dProtoD) l with
+    | Some ((w, protos), []) => eRes (eList C05.Model.eCand) (FO.create_candidates_o FO.en_desc protos w)
+    | _ => bad_input
+    end
+  | 15 => (* [a; b; m] followed by the payload of fn 4: the formation at the scrambled enumeration en_hash a b m *)
+    match l with
+    | a :: b :: m :: l' =>
+      match dPair (dOpt dZ) (dList C05.Model.dProtoD) l' with
+      | Some ((w, protos), []) => eRes (eList C05.Model.eCand) (FO.create_candidates_o (FO.en_hash a b m) protos w)
+      | _ => bad_input
+      end
+    | _ => bad_input
+    end
   | 5 => match dPair (dPair dBool dZ) (dList dU) l with
          | Some ((crossing, N, o), []) => eUIds (unique_protoclusters crossing N o)
          | _ => bad_input
